@@ -143,6 +143,9 @@ func runC17(c *core.Ctx, o Options) {
 	// not appear in the others
 	checkTypedTemplates(c, "P3")
 	c.Explanation += " P3 (= C02.R2): KeyValue.AsTemplate returns a fresh KeyValue with a fresh empty value of the same type. S also: the collectors (Items/Component/Group.ToBytes) have no return that bypasses their loop while there are items."
+	checkFreshConstructors(c, "V")
+	checkAddEntryPlain(c, "P1")
+	c.Explanation += " V also: constructors hand out fresh objects. P1 also: Group.AddEntry appends the entry it is given on every path."
 	c.RuleMin = map[string]int{"P1": 14, "S": 18, "V": 43, "T": 2, "P2": 2, "P3": 1, "D": 18}
 	c.MinObl = 60
 }
